@@ -111,7 +111,23 @@ pub uninterp spec fn i32_to_f64(x: i32) -> f64;
         fgt(i32_to_f64(s).mul_spec(w).mul_spec(cap).mul_spec(gate), -1.0f64),
 { }
 #[verifier::external_body] pub proof fn lemma_one_is_q_ok() ensures q_ok(1.0f64) { }
-pub uninterp spec fn spec_cap_packets(target: u64, rtt_min: f64) -> Option<i32>;
+// the documented in-flight cap: max(1, target * rtt_s / 8 * 1.5 / 1316) packets; a link without a usable RTT baseline (non-positive or
+// non-finite minimum) is capped as if its RTT were 1 ms.  Float operations stay uninterpreted (IEEE semantics: Kani, kx/src/sel.rs); what is
+// pinned here is WHICH operations on WHICH operands.  Opaque: the selection proofs only need it to be a function of (target, rtt_min).
+pub open spec fn anchor_in_range(a: Option<usize>, n: int) -> Option<usize> { if a is Some && a.unwrap() < n { a } else { None } }
+pub uninterp spec fn u64_to_f64(x: u64) -> f64;
+pub uninterp spec fn f64_to_i32_sat(x: f64) -> i32;
+#[verifier::external_body] pub fn cast_u64_f64(x: u64) -> (r: f64) ensures r == u64_to_f64(x) { x as f64 }
+#[verifier::external_body] pub fn cast_f64_i32(x: f64) -> (r: i32) ensures r == f64_to_i32_sat(x) { x as i32 }
+pub open spec fn spec_cap_rtt(rtt_min: f64) -> f64 { if spec_f64_is_finite(rtt_min) && fgt(rtt_min, 0.0f64) { rtt_min } else { 1.0f64 } }
+#[verifier::opaque]
+pub open spec fn spec_cap_packets(target: u64, rtt_min: f64) -> Option<i32> {
+    if target == 0 { None } else {
+        let bdp = u64_to_f64(target).mul_spec(spec_cap_rtt(rtt_min).div_spec(1000.0f64)).div_spec(8.0f64).mul_spec(1.5f64);
+        let cap = spec_f64_max(spec_f64_floor(bdp.div_spec(u64_to_f64(1316u64))), 1.0f64);
+        Some(f64_to_i32_sat(spec_f64_min(cap, i32_to_f64(i32::MAX))))
+    }
+}
 pub open spec fn spec_cap_exceeded(c: &SrtlaConnection) -> bool {
     match spec_cap_packets(c.cc_target_bps, c.rtt.rtt_min_ms) { Some(cap) => c.in_flight_packets > cap, None => false }
 }
@@ -206,11 +222,8 @@ impl RttTracker {
         ensures final(self).waiting_for_keepalive_response == old(self).waiting_for_keepalive_response,
             final(self).last_keepalive_sent_ms == old(self).last_keepalive_sent_ms,
     { unimplemented!() }
-    #[verifier::external_body]
-    pub fn reset(&mut self)
-        ensures !final(self).waiting_for_keepalive_response, final(self).last_keepalive_sent_ms == 0, final(self).last_rtt_measurement_ms == 0,
-    { unimplemented!() }
 }
+#[verifier::external_body] pub fn vecdeque_f64_clear(v: &mut VecDeque<f64>) { v.clear(); }
 '''
 
 CONN_FLOAT_STUBS = r'''
@@ -236,10 +249,6 @@ pub fn calculate_quality_multiplier(conn: &SrtlaConnection, current_time_ms: u64
 
 ENH_STUBS = r'''
 // float code decided by Kani on the real functions (kx: in_flight_cap_*, soft_cap_range)
-#[verifier::external_body]
-pub fn in_flight_cap_packets(cc_target_bps: u64, rtt_min_ms: f64) -> (r: Option<i32>)
-    ensures r == spec_cap_packets(cc_target_bps, rtt_min_ms),
-{ unimplemented!() }
 pub uninterp spec fn spec_soft_cap(c: &SrtlaConnection) -> f64;
 #[verifier::external_body]
 pub fn cc_soft_cap_multiplier(conn: &SrtlaConnection) -> (r: f64)
@@ -718,7 +727,40 @@ IDX_ENSURES = [
     C('C10+C12.select.select_connection_idx.guard_off_clears_every_flag_and_latch', '''!config.stall_deselect ==> forall|i: int| 0 <= i < old(conns).len() ==> !(#[trigger] final(conns)[i]).stall_gated
             && !final(conns)[i].silence_pulled && final(conns)[i].stall_latched_since_ms == 0 && final(conns)[i].stall_recovery_since_ms == 0'''),
 ]
+def IDX_ANCHOR_REWRITE(text):
+    """wrap the `last_idx` ARGUMENT of the enhanced selector call in a block that asserts it still denotes the caller's previous choice
+    (out-of-range anchors are ignored by the selector, so only the in-range part matters)."""
+    import re as _re
+    from rustlex import match_bracket as _mb
+    m = _re.search(r'enhanced::select_connection\(', text)
+    if not m:
+        return text
+    op = m.end() - 1
+    cl = _mb(text, op, '(', ')')
+    args = []
+    d = 0
+    a = op + 1
+    for k in range(op + 1, cl):
+        c = text[k]
+        if c in '([{':
+            d += 1
+        elif c in ')]}':
+            d -= 1
+        elif c == ',' and d == 0:
+            args.append((a, k))
+            a = k + 1
+    args.append((a, cl))
+    if len(args) < 2:
+        return text
+    a0, a1 = args[1]
+    arg = text[a0:a1].strip()
+    new = ('({ let anchor_arg = %s; proof { assert(anchor_in_range(anchor_arg, conns.len() as int) == anchor_in_range(anchor_entry, conns.len() as int)); }'
+           '  // @ob C11.select.select_connection_idx.the_previous_choice_reaches_the_enhanced_selector_unchanged\n anchor_arg })' % arg)
+    return text[:a0] + ' ' + new + text[a1:]
+
+
 IDX_SPLICES = [
+    ('@BEGIN', '    let ghost anchor_entry = last_idx;', 'after'),
     ('match config.mode {', '''proof {
         assert forall|i: int| 0 <= i < conns.len() implies 0 <= (#[trigger] conns[i]).window && conns[i].batch_sender.wf() && q_ok(conns[i].quality_cache.multiplier) by { assert(old(conns)[i].same_acct(&conns[i])); }
     }
